@@ -50,6 +50,11 @@ def run(index, rep):
     rep.guard(floor, index, rep, db)
     rep.guard(csv_rule, index, rep)
     rep.guard(split, index, rep)
+    # a reported result stays what was reported: no later step (preparing the next round) rewrites a series of an interpreted result in
+    # place through a local that is the series' own storage (the rule is C05's; filed here as C04.STATE as well)
+    from .c05 import no_alias_writes
+    from .core import RuleAlias
+    rep.guard(no_alias_writes, index, RuleAlias(rep, lambda r: "C04.STATE" if r == "C05.STATE" else r))
 
 
 # ----------------------------------------------------------------------------------------------- CHAIN
